@@ -113,6 +113,10 @@ def make_jobs(ctx):
                         info=dict(layer="R")))
     jobs += g_probes(ctx)
     jobs += expr_jobs(ctx, ["load", "store", "memory_size", "memory_grow"])
+    # data segments kept outside the C file (-d gnu-ld): the bytes memory.init / the active segments copy come from blob offsets that must count
+    # passive segments too (instantiation probe of C06 with a passive segment between active ones)
+    from . import c06
+    jobs += c06.variant_jobs(ctx, "defmem", False, True, False, opts=["-d", "gnu-ld"], prefix="Ggnuld", only=["h_memory"])
     return jobs
 
 
